@@ -11,6 +11,7 @@ import (
 	"runtime"
 	"strconv"
 	"sync"
+	"time"
 )
 
 // Rec is an NDJSON event log.  The sequence number is taken and the line is written under one
@@ -24,6 +25,7 @@ type Rec struct {
 	f   *os.File
 	w   *bufio.Writer
 	seq int
+	t0  time.Time
 }
 
 func NewRec(path string, appendMode bool) *Rec {
@@ -37,7 +39,7 @@ func NewRec(path string, appendMode bool) *Rec {
 	if err != nil {
 		panic(err)
 	}
-	return &Rec{f: f, w: bufio.NewWriter(f)}
+	return &Rec{f: f, w: bufio.NewWriter(f), t0: time.Now()}
 }
 
 // E is one event.
@@ -56,6 +58,7 @@ func (r *Rec) Force(e E) {
 	defer r.mu.Unlock()
 	r.seq++
 	e["seq"] = r.seq
+	e["ms"] = int(time.Since(r.t0) / time.Millisecond) // payload only (diagnostics, slow-machine guard), never order
 	b, err := json.Marshal(e)
 	if err != nil {
 		panic(err)
